@@ -183,7 +183,10 @@ def build(tier, seed):
                 sv = [dict(e, shots=abs(int(e["shots"])) or 1, copies=abs(int(e["copies"])) or 1) for e in (v.get("shot_vector") or [])]
                 if not sv:
                     sv = [{"__class__": "ShotCopies", "shots": 3, "copies": 1}]
-                v = dict(v, shot_vector=sv, total_shots=sum(e["shots"] * e["copies"] for e in sv), _frozen=True)
+                v = dict(v, shot_vector=sv, total_shots=sum(e["shots"] * e["copies"] for e in sv))
+            elif rng is not None and isinstance(v, list) and v and all(isinstance(e, (list, tuple)) and len(e) == 2 for e in v):
+                # random search only: valid (shots, copies) pairs with a good chance of adjacent equal shot values
+                v = [(1 + abs(int(e[0])) % 3, 1 + abs(int(e[1])) % 3) for e in v]
             out[k] = v
         return out
 
@@ -565,7 +568,7 @@ def build(tier, seed):
     ]
     for fc in contracts:
         for cs in fc.cases:
-            if cs.native_gen is None and any(t is not None and t.kind == "rec" and t.args[0] == "Shots" for t in cs.params.values()):
+            if cs.native_gen is None:
                 cs.native_gen = repair
         plan.fn_under_contract(fc.world.file, fc.qualname)
         for ob in obligations_for("C44", fc, tier):
